@@ -23,7 +23,14 @@ func init() { register("C03", runC03) }
 type p8 struct{ A, B int8 }
 
 func runC03(c *core.Ctx) {
-	switch c.R.Intn(3) {
+	switch c.R.Intn(4) {
+	case 3: // larger universes: bigger dirty maps, promotion thresholds, many deleted entries
+		n := c.R.Range(12, 40)
+		u := make([]int, n)
+		for i := range u {
+			u[i] = i * 7
+		}
+		setCase(c, "int-big", u, func(a, b int) bool { return a < b }, func(v int) string { return fmt.Sprint(v) })
 	case 0:
 		u := []int{0, 1, 2, 3, 4, 5, 6, 7}[:c.R.Range(1, 8)]
 		setCase(c, "int", u, func(a, b int) bool { return a < b }, func(v int) string { return fmt.Sprint(v) })
@@ -230,7 +237,7 @@ func setCase[T comparable](c *core.Ctx, tname string, univ []T, less func(a, b T
 		if !check(o, "constructor") {
 			return nil
 		}
-		n := r.Intn(40)
+		n := r.Intn(40 + 3*len(univ))
 		for i := 0; i < n; i++ {
 			v := univ[r.Intn(len(univ))]
 			switch r.Pick(10, 8, 6, 3, 2) {
